@@ -1,10 +1,17 @@
 package props
 
 import (
+	"os"
 	"testing"
 
 	"verifharness/core"
+	"verifharness/lsw"
 )
+
+func TestMain(m *testing.M) {
+	lsw.Quiet()
+	os.Exit(m.Run())
+}
 
 // TestReplay re-executes the case stored in the file named by VERIF_REPLAY,
 // bypassing rapid entirely.
